@@ -368,7 +368,7 @@ def run_cache(case, R):
                     for a_ in m2:
                         for s_ in a_["services"]:
                             for c_ in s_["characteristics"]:
-                                if "pr" in c_["perms"] and c_.get("format") in ("uint8", "uint16", "uint32", "uint64", "int"):
+                                if "pr" in c_["perms"] and c_.get("format") in (("uint8", "uint16", "uint32", "uint64", "int") if u["value"] < 256 else ("uint64",)):
                                     c_["value"] = u["value"]
                     emap[:] = m2
                 p1.restore_accessories_state(m2, cn, key, sn)
@@ -653,6 +653,9 @@ def entity_maps(draw):
                         c["value"] = draw(st.sampled_from(["", "text ü", "AQID", None]))
                     elif fmt == "float":
                         c["value"] = draw(st.sampled_from([0.0, 21.5, -3.25, None, 100]))
+                    elif fmt == "uint64":
+                        # the format's whole range: beyond 2^53 a JSON stack that goes through doubles (or refuses them) loses the value
+                        c["value"] = draw(st.sampled_from([0, 1, 2**32 - 1, 2**53 - 1, 2**53 + 1, 2**63 + 12345, 2**64 - 1, None]))
                     else:
                         c["value"] = draw(st.sampled_from([0, 1, 255, 65535, 2**32 - 1, None]))
                 if fmt not in ("bool", "string", "tlv8", "data") and ctype not in ("8", "11", "13") and draw(st.booleans()):
@@ -686,12 +689,21 @@ def entity_maps(draw):
 @st.composite
 def cache_cases(draw):
     ups = draw(st.lists(st.fixed_dictionaries({}, optional={"cn": st.integers(0, 2), "sn": st.one_of(st.none(), st.integers(0, 65535)),
-                                                            "key": st.one_of(st.none(), st.binary(min_size=32, max_size=32)), "value": st.integers(0, 200)}), max_size=3))
+                                                            "key": st.one_of(st.none(), st.binary(min_size=32, max_size=32)),
+                                                            "value": st.one_of(st.integers(0, 200), st.sampled_from([2**53 + 1, 2**63 + 12345, 2**64 - 1]))}), max_size=3))
     return {"map": draw(entity_maps()), "config_num": draw(st.integers(0, 70000)), "state_num": draw(st.one_of(st.none(), st.integers(0, 65535))),
             "broadcast_key": draw(st.one_of(st.none(), st.binary(min_size=32, max_size=32))), "updates": ups}
 
 
 def enum_fixtures(tier):
+    for big in (2**53 - 1, 2**53 + 1, 2**63 + 12345, 2**64 - 1):
+        m = [{"aid": 1, "services": [{"iid": 1, "type": "3E", "characteristics": [{"iid": 2, "type": "23", "perms": ["pr"], "format": "string", "value": "x"}]},
+                                     {"iid": 8, "type": "7F0DEE73-4A3F-4103-98E6-A46CD301BDFB", "linked": [1], "characteristics": [
+                                         {"iid": 9, "type": "0000FF01-0000-1000-8000-0026BB765291", "perms": ["pr", "pw"], "format": "uint64", "value": big}]}]}]
+        yield {"map": m, "config_num": 2, "state_num": 1}
+        m0 = json.loads(json.dumps(m))
+        m0[0]["services"][1]["characteristics"][0]["value"] = 5
+        yield {"map": m0, "config_num": 2, "state_num": 1, "updates": [{"value": big}]}
     for f in sorted(glob.glob(os.path.join(REPO, "tests", "fixtures", "*.json"))):
         yield {"fixture": os.path.basename(f), "config_num": 7, "state_num": 3, "broadcast_key": bytes(range(32))}
         yield {"fixture": os.path.basename(f), "config_num": 7, "state_num": 3, "broadcast_key": None, "updates": [{"sn": 42}, {"key": bytes(range(1, 33))}]}
